@@ -543,6 +543,23 @@ func execOp(line string) string {
 			if e1 == nil && kind != "RAW" && !bytes.Equal(b1, snap) {
 				return "mutated bytes-returned-by-an-earlier-Marshal"
 			}
+			if kind != "RAW" { // the caller owns what Marshal returned: writing into it must not show in a later result
+				snap2 := append([]byte{}, b2...)
+				for i := range b1 {
+					b1[i] ^= 0xff
+				}
+				if len(b2) > 0 && (len(b1) == 0 || &b2[0] != &b1[0]) {
+					for i := range b2 {
+						b2[i] ^= 0xff
+					}
+				}
+				b3, e3 := marshalAny(kind, NewR(parts[0]))
+				b4, e4 := marshalAny(kind, NewR(parts[1]))
+				if (e1 == nil && e3 == nil && !bytes.Equal(b3, snap)) || (e2 == nil && e4 == nil && !bytes.Equal(b4, snap2)) {
+					return "mutated result-of-Marshal-after-the-caller-wrote-into-an-earlier-result"
+				}
+				b2 = snap2
+			}
 			f := func(b []byte, e error) string {
 				if e != nil {
 					return "err"
